@@ -6,6 +6,7 @@ R01d keyed partition; R01e same-slot pairing; R01f on_diff coverage; R01g the sc
 import ast
 
 from .. import e1, symslice
+from ..astx import code
 from ..astx import self_attr, walk_no_nested, dotted, call_name, parent, dominating_conditions, flatten_conditions, \
     func_params, kwarg, ancestors
 from ..core import norm, Inconclusive
@@ -331,7 +332,7 @@ def r01b(ctx):
                           f"incoherent step: predecessor ({ast.unparse(br)}, {ast.unparse(bc)}) with edit {ast.unparse(ed)}; "
                           f"expected {want_txt}. The back-trace would consume an element twice or not at all")
     # -- back-trace in edits()
-    src = ast.unparse(edits.node).replace(" ", "")
+    src = code(edits.node).replace(" ", "")
     n_ob += 1
     _w, wb = pat.first("R > 0 or C > 0", edits.node)
     loop = next((x for x in walk_no_nested(edits.node) if isinstance(x, ast.While) and wb and x.test is _w), None)
@@ -774,7 +775,7 @@ def r01f(ctx):
         short = q.rsplit(".", 1)[-1]
         n += 1
         chain = _on_diff_chain(m, q)
-        txt = " ".join(ast.unparse(f.node) for f in chain).replace(" ", "")
+        txt = " ".join(code(f.node) for f in chain).replace(" ", "")
         compound = m.method(q, "edits") is not None
         problems = []
         if short == "Insert":
@@ -810,7 +811,7 @@ def _on_diff_chain(m, q):
         if "on_diff" in m.attrs[k] and m.attrs[k]["on_diff"][0] == "def":
             f = m.attrs[k]["on_diff"][1]
             out.append(f)
-            if "super().on_diff" not in ast.unparse(f.node):
+            if "super().on_diff" not in code(f.node):
                 break
         i += 1
     return out
@@ -846,7 +847,7 @@ def r01g(ctx):
     pq = m.find_class("PLISTNode")
     if pq:
         e = m.method(pq, "edits")
-        t = ast.unparse(e.node).replace(" ", "")
+        t = code(e.node).replace(" ", "")
         o = func_params(e.node)[1]
         if f"self.root.edits({o}.root)" in t:
             ctx.proved("R01g", e.file, "PLISTNode.edits", e.node, "plist root pairing", "root is diffed against the other wrapper's root")
